@@ -250,6 +250,7 @@ func (m *UDPMuxDefault) RemoveConnByUfrag(ufrag string) {
 	defer m.addressMapMu.Unlock()
 
 	for _, c := range removedConns {
+		c.markRemoved()
 		addresses := c.getAddresses()
 		for _, addr := range addresses {
 			delete(m.addressMap, addr)
@@ -518,6 +519,11 @@ func (m *UDPMuxDefault) registerConnForAddress(conn *udpMuxedConn, addr netip.Ad
 
 	m.addressMapMu.Lock()
 	defer m.addressMapMu.Unlock()
+
+	if conn.isRemoved() {
+		// RemoveConnByUfrag took conn out of the mux: it must not receive any more.
+		return
+	}
 
 	existing, ok := m.addressMap[addr]
 	if ok && existing != conn {
